@@ -45,6 +45,73 @@ def norm_text(s: str) -> str:
     return re.sub(r"\s+", "", s)
 
 
+class _Canon(ast.NodeTransformer):
+    """Canonical spelling of a few equivalent constructs, applied to every parsed module so that no rule depends on which
+    spelling the source uses:  `not (a == b)` -> `a != b` (and in / is),  `x in d.keys()` -> `x in d`,  constants / enum members
+    on the right of == and !=,  `if not c: B else: A` -> `if c: A else: B`,  `b if not c else a` -> `a if c else b`."""
+
+    NEG = {ast.Eq: ast.NotEq, ast.NotEq: ast.Eq, ast.In: ast.NotIn, ast.NotIn: ast.In, ast.Is: ast.IsNot, ast.IsNot: ast.Is}
+
+    @staticmethod
+    def _rank(e):
+        if isinstance(e, ast.Constant):
+            return 3
+        if isinstance(e, ast.UnaryOp) and isinstance(e.operand, ast.Constant):
+            return 3
+        if isinstance(e, (ast.List, ast.Tuple, ast.Set)) and all(isinstance(x, ast.Constant) for x in e.elts):
+            return 3
+        if isinstance(e, ast.Attribute):
+            b = e
+            while isinstance(b, ast.Attribute):
+                b = b.value
+            if isinstance(b, ast.Name) and (b.id[:1].isupper() or e.attr.isupper()):
+                return 2            # ReactionType.X, self.ReactionType.X, VariableType.param
+            if isinstance(b, ast.Name) and b.id in ("self", "cls") and any(part[:1].isupper() for part in ast.unparse(e).split(".")[1:-1]):
+                return 2
+        return 0
+
+    def visit_UnaryOp(self, n):
+        self.generic_visit(n)
+        if isinstance(n.op, ast.Not) and isinstance(n.operand, ast.Compare) and len(n.operand.ops) == 1 and type(n.operand.ops[0]) in self.NEG:
+            c = n.operand
+            c.ops = [self.NEG[type(c.ops[0])]()]
+            return c
+        if isinstance(n.op, ast.Not) and isinstance(n.operand, ast.UnaryOp) and isinstance(n.operand.op, ast.Not) and False:
+            return n.operand.operand
+        return n
+
+    def visit_Compare(self, n):
+        self.generic_visit(n)
+        if len(n.ops) == 1:
+            r = n.comparators[0]
+            if isinstance(n.ops[0], (ast.In, ast.NotIn)) and isinstance(r, ast.Call) and isinstance(r.func, ast.Attribute) and r.func.attr == "keys" and not r.args and not r.keywords:
+                n.comparators = [r.func.value]
+            if isinstance(n.ops[0], (ast.Eq, ast.NotEq)) and self._rank(n.left) > self._rank(r):
+                n.left, n.comparators = r, [n.left]
+        return n
+
+    def visit_If(self, n):
+        self.generic_visit(n)
+        plain_else = n.orelse and not (len(n.orelse) == 1 and isinstance(n.orelse[0], ast.If))
+        if plain_else and isinstance(n.test, ast.UnaryOp) and isinstance(n.test.op, ast.Not):
+            n.test = n.test.operand
+            n.body, n.orelse = n.orelse, n.body
+        elif plain_else and isinstance(n.test, ast.Compare) and len(n.test.ops) == 1 and isinstance(n.test.ops[0], (ast.NotEq, ast.NotIn, ast.IsNot)):
+            n.test.ops = [self.NEG[type(n.test.ops[0])]()]
+            n.body, n.orelse = n.orelse, n.body
+        return n
+
+    def visit_IfExp(self, n):
+        self.generic_visit(n)
+        if isinstance(n.test, ast.UnaryOp) and isinstance(n.test.op, ast.Not):
+            n.test = n.test.operand
+            n.body, n.orelse = n.orelse, n.body
+        elif isinstance(n.test, ast.Compare) and len(n.test.ops) == 1 and isinstance(n.test.ops[0], (ast.NotEq, ast.NotIn, ast.IsNot)):
+            n.test.ops = [self.NEG[type(n.test.ops[0])]()]
+            n.body, n.orelse = n.orelse, n.body
+        return n
+
+
 class SourceTree:
     """Read-only view of the repository working tree, with an in-memory overlay
     (path -> text) used to analyse mutants without touching the disk."""
@@ -105,7 +172,7 @@ class SourceTree:
     def pyast(self, rel: str) -> ast.Module:
         if rel not in self._ast:
             try:
-                self._ast[rel] = ast.parse(self.read(rel), filename=rel)
+                self._ast[rel] = _Canon().visit(ast.parse(self.read(rel), filename=rel))
             except SyntaxError as e:
                 raise AnalysisError(f"cannot parse {rel}: {e}", (rel, e.lineno or 0))
         return self._ast[rel]
